@@ -22,7 +22,7 @@ BOUNDS = {
              'lattices (cubic, triclinic), dimensions 1..3; occupancy histories (T,A) in {(3,1),(2,2)} over 3 sites',
     'thorough': 'event tables k<=4, n<=4; jump tables k<=3 on 6 pool lattices (k=4 on the 3-site set), 3- and 4-site sets; occupancy (T,A) in {(4,1),(3,2),(2,3),(3,1)}',
 }
-OUTSIDE = ['e_act values on graph edges, rates and activation energies (need the attempt frequency -> scipy periodogram)',
+OUTSIDE = ['e_act values on graph edges and activation energies (need the attempt frequency -> scipy periodogram); rates: only the counting part',
            'more rows/sites than the bound']
 ASSUMPTIONS = [
     'jump tables contain rows with start != destination, both valid site indices (what _generic_transitions_to_jumps emits; C04)',
@@ -315,7 +315,78 @@ def occupancy_job_replay(params, inputs):
     return True, 'ok'
 
 
-REPLAYS = dict(tmatrix_job=tmatrix_job_replay, jbook_job=jbook_job_replay, occupancy_job=occupancy_job_replay)
+# --------------------------------------------------------------------------- rates (aggregation over time parts)
+
+
+def _rates_setup(jm, tr, s, T, A):
+    from pymatgen.core import Structure
+    from harness import c19
+    ev = tr._calculate_transition_events(atom_sites=s, atom_inner_sites=s)
+    traj = c19._traj(T, A)
+    sites = Structure(np.eye(3) * 5.0, ['Li'] * 3, [[0.1, 0.1, 0.1], [0.5, 0.1, 0.1], [0.1, 0.5, 0.5]], labels=['A', 'A', 'B'])
+    t = tr.Transitions(trajectory=traj, diff_trajectory=traj, sites=sites, events=ev, states=s, inner_states=s)
+    return t, traj
+
+
+def rates_job(params):
+    """Jumps.rates(n_parts): the per-label-pair rate is the mean part count / (atoms x part time), and the part counts are a
+    consistent aggregation of the whole counter (never more than it)."""
+    import gemdat.jumps as jm
+    import gemdat.transitions as tr
+    T, A, n_parts = params['T'], params['A'], params['n_parts']
+
+    def body():
+        s = S([[sym_int(f's_{t}_{a}', NOSITE, 2) for a in range(A)] for t in range(T)])
+        assume(disj([s[t, a] != s[t + 1, a] for t in range(T - 1) for a in range(A)]))
+        try:
+            t, traj = _rates_setup(jm, tr, s, T, A)
+            jumps = jm.Jumps(t)
+        except ValueError as e:
+            if 'No jumps found' in str(e):
+                return
+            event(f'exception:{type(e).__name__}', detail=str(e)[:100])
+            return
+        whole = jumps.counter()
+        try:
+            rates = jm.Jumps.rates.__wrapped__(jumps, n_parts)
+        except ValueError as e:
+            if 'No jumps found' in str(e) or 'Not enough transitions' in str(e):
+                return   # documented: a part without jumps / fewer events than parts
+            event(f'exception:{type(e).__name__}', detail=str(e)[:100])
+            return
+        denom = A * (traj.total_time / n_parts)
+        for pair in jumps.site_pairs:
+            r = float(rates.loc[pair, 'rates'])
+            total_parts = r * denom * n_parts
+            prove('rate x atoms x part time x n_parts is a whole number of jumps', abs(total_parts - round(total_parts)) < 1e-6)
+            prove('jump counts of the parts never add up to more than the counter of the whole (rates consistent with the count matrix)',
+                  round(total_parts) <= whole[pair], detail=dict(pair=list(pair), parts=round(total_parts), whole=whole[pair]))
+        sample(dict(T=T, A=A, n_parts=n_parts, jumps=int(jumps.n_jumps)))
+
+    return symbolic_job(params, body, rates_job_replay)
+
+
+def rates_job_replay(params, inputs):
+    import gemdat.jumps as jm
+    import gemdat.transitions as tr
+    T, A, n_parts = params['T'], params['A'], params['n_parts']
+    s = np.array([[int(inputs[f's_{t}_{a}']) for a in range(A)] for t in range(T)], dtype=int)
+    try:
+        t, traj = _rates_setup(jm, tr, s, T, A)
+        jumps = jm.Jumps(t)
+        whole = jumps.counter()
+        rates = jumps.rates(n_parts)
+    except ValueError as e:
+        return True, f'documented ValueError: {e}'
+    denom = A * (traj.total_time / n_parts)
+    for pair in jumps.site_pairs:
+        tot = float(rates.loc[pair, 'rates']) * denom * n_parts
+        if round(tot) > whole[pair] or abs(tot - round(tot)) > 1e-6:
+            return False, f'rates imply {tot} jumps {pair} over the parts but the whole has {whole[pair]}; states={s.T.tolist()} n_parts={n_parts}'
+    return True, 'ok'
+
+
+REPLAYS = dict(tmatrix_job=tmatrix_job_replay, jbook_job=jbook_job_replay, occupancy_job=occupancy_job_replay, rates_job=rates_job_replay)
 
 
 def jobs(tier, seed):
@@ -336,4 +407,6 @@ def jobs(tier, seed):
                        params=dict(k=k, lattice=lat, sites=ss, dims=[1, 2, 3], n_float=2, total_time=7e-12)))
     for T, A, ss in oc:
         js.append(dict(name=f'occupancy_T{T}_A{A}_{ss}', fn='occupancy_job', params=dict(T=T, A=A, sites=ss, lattice='cubic5')))
+    for T, A, n in ([(4, 1, 2), (5, 1, 2)] if tier == 'quick' else [(5, 1, 2), (6, 1, 2), (7, 1, 2), (6, 1, 3), (5, 2, 2)]):
+        js.append(dict(name=f'rates_T{T}_A{A}_p{n}', fn='rates_job', params=dict(T=T, A=A, n_parts=n)))
     return js
